@@ -325,7 +325,12 @@ func docTemplateData(seed uint64, dir string) *document.TemplateData {
 	td.SetVariable("other", fmt.Sprintf("O%d", r.intn(100)))
 	td.SetCondition("show", r.chance(50))
 	var items []interface{}
+	stringMaps := r.chance(25) // items of the other map type data may carry
 	for i, n := 0, r.intn(3); i < n; i++ {
+		if stringMaps {
+			items = append(items, map[string]string{"name": fmt.Sprintf("i%d", i), "qty": fmt.Sprint(i)})
+			continue
+		}
 		items = append(items, map[string]interface{}{"name": fmt.Sprintf("i%d", i), "qty": i})
 	}
 	td.SetList("items", items)
